@@ -786,7 +786,14 @@ class FactoryRun:
                 task_status.started(("sv", tid))
             child = spec.get("child_spec")
             if child is not None:
-                await run.spawn(child, "task", ctx)
+                try:
+                    await run.spawn(child, "task", ctx)
+                except RuntimeError as e:
+                    if not run.going_down:
+                        raise
+                    # (as below for a last-moment child: the application is already going down and the factory refused the spawn;
+                    # the statement fixes no outcome for that, and this task simply goes on)
+                    run.log("spawn-failed", child["tid"], exc=describe_exc(e), after_fatal=True)
             try:
                 if spec["dur"]:
                     await anyio.sleep(spec["dur"])
